@@ -66,11 +66,14 @@ def hintNotVerifiableB : Bool := tab.all fun r =>
     r.2.1.any (fun o => o.1 == wBHint || o.1 == wIHint))
 theorem C01_hint_not_verifiable : hintNotVerifiableB = true := by decide +kernel
 
-/-- `tainted_opaque` is inert: the only accepted steps on an opaque operand are copying it,
-taking its address, `set_zero`, `from_opaque` and freeing it -/
+/-- `tainted_opaque` is inert: the only accepted steps on an opaque operand are copying it
+(initialisation, or assignment of an opaque to an opaque, which yields the opaque again), taking its
+address, `set_zero`, `from_opaque` and freeing it -- in particular no comparison, arithmetic or
+logical operator accepts an opaque operand on either side -/
 def opaqueInertB : Bool := tab.all fun r =>
   !(r.2.1.any (fun o => o.1 == wOpaque)) ||
-  ["init_auto", "addr", "m_set_zero", "f_from_opaque", "free"].contains (ruleName r.1)
+  ["init_auto", "addr", "m_set_zero", "f_from_opaque", "free"].contains (ruleName r.1) ||
+  (ruleName r.1 == "bin=" && r.2.1.all (fun o => o.1 == wOpaque) && r.2.2.1 == wOpaque)
 theorem C01_opaque_inert : opaqueInertB = true := by decide +kernel
 
 /-- private storage stays private: no member access to the raw fields compiles -/
